@@ -79,6 +79,11 @@ def evaluate(chk, cases, component, spec=True, spec_status_only=False, count=Tru
     * direct oracle (when `spec`): implementation vs specification line
     * tie: implementation vs model
     Returns (lines, impl, model)."""
+    # a third of the cut cases write through a double that accepts at most 1-3 bytes per `write` call (short writes are legal for
+    # any `Write`; stdout's LineWriter does it for real on a large write with a long unterminated tail): `write` for `write_all` shows
+    for c in cases:
+        if c.get("kind", "cut") == "cut" and "sw" not in c and "wf" not in c and "rf" not in c and chk.rng.random() < 0.33:
+            c["sw"] = chk.rng.randint(1, 3)
     lines = [case_line(c) for c in cases]
     impl = run_impl(lines)
     model = run_model(lines)
